@@ -108,6 +108,14 @@ fn make_response(id: u8, seq: usize) -> Response {
             b.push(b'a' + ((b.len() + seq) % 26) as u8);
         }
         r.set_body(Body::new(b));
+        // a length set by hand after the body (shorter, absent, longer): whatever `write_all` makes of it is what
+        // the stream must receive, byte for byte
+        match seq % 7 {
+            3 => r.set_content_length(Some((size / 2) as i32)),
+            5 => r.set_content_length(None),
+            6 => r.set_content_length(Some((size + 10) as i32)),
+            _ => {}
+        }
     }
     r
 }
